@@ -271,7 +271,9 @@ func GoSchemaFamily() []*EquivCase {
 			s.Properties = map[string]*jsonschema.Schema{"a": intS.CloneSchemas(), "b": {Not: &jsonschema.Schema{}}}
 			s.PropertyOrder = []string{"gone1", "b", "gone2", "gone3"}
 		}},
-		{"PatternProperties", func(s *jsonschema.Schema) { s.PatternProperties = map[string]*jsonschema.Schema{"^a": str.CloneSchemas()} }},
+		{"PatternProperties", func(s *jsonschema.Schema) {
+			s.PatternProperties = map[string]*jsonschema.Schema{"^a": str.CloneSchemas()}
+		}},
 		{"AdditionalPropertiesFalse", func(s *jsonschema.Schema) { s.AdditionalProperties = &jsonschema.Schema{Not: &jsonschema.Schema{}} }},
 		{"AdditionalPropertiesTrue", func(s *jsonschema.Schema) { s.AdditionalProperties = &jsonschema.Schema{} }},
 		{"PropertyNames", func(s *jsonschema.Schema) { s.PropertyNames = &jsonschema.Schema{MaxLength: I(1)} }},
@@ -285,11 +287,16 @@ func GoSchemaFamily() []*EquivCase {
 		{"Not", func(s *jsonschema.Schema) { s.Not = intS.CloneSchemas() }},
 		{"NotEmpty", func(s *jsonschema.Schema) { s.Not = &jsonschema.Schema{} }},
 		{"NotNotEmpty", func(s *jsonschema.Schema) { s.Not = &jsonschema.Schema{Not: &jsonschema.Schema{}} }},
-		{"IfThenElse", func(s *jsonschema.Schema) { s.If, s.Then, s.Else = intS.CloneSchemas(), &jsonschema.Schema{Minimum: P(1)}, str.CloneSchemas() }},
+		{"IfThenElse", func(s *jsonschema.Schema) {
+			s.If, s.Then, s.Else = intS.CloneSchemas(), &jsonschema.Schema{Minimum: P(1)}, str.CloneSchemas()
+		}},
 		{"DependentSchemas", func(s *jsonschema.Schema) {
 			s.DependentSchemas = map[string]*jsonschema.Schema{"a": {Required: []string{"b"}}}
 		}},
-		{"DefsRef", func(s *jsonschema.Schema) { s.Ref = "#/$defs/d"; s.Defs = map[string]*jsonschema.Schema{"d": intS.CloneSchemas()} }},
+		{"DefsRef", func(s *jsonschema.Schema) {
+			s.Ref = "#/$defs/d"
+			s.Defs = map[string]*jsonschema.Schema{"d": intS.CloneSchemas()}
+		}},
 		{"DefsEmpty", func(s *jsonschema.Schema) { s.Defs = map[string]*jsonschema.Schema{} }},
 		{"AnchorRef", func(s *jsonschema.Schema) {
 			s.Ref = "#x"
@@ -301,13 +308,17 @@ func GoSchemaFamily() []*EquivCase {
 		}},
 		{"DefaultNull", func(s *jsonschema.Schema) { s.Default = json.RawMessage(`null`) }},
 		{"ExamplesEmpty", func(s *jsonschema.Schema) { s.Examples = []any{} }},
-		{"Extra", func(s *jsonschema.Schema) { s.Extra = map[string]any{"x-a": 1.0, "X": map[string]any{"type": "string"}, "Type": "string"} }},
+		{"Extra", func(s *jsonschema.Schema) {
+			s.Extra = map[string]any{"x-a": 1.0, "X": map[string]any{"type": "string"}, "Type": "string"}
+		}},
 		{"ExtraCaseVariants", func(s *jsonschema.Schema) {
 			s.Type = "string"
 			s.Extra = map[string]any{"MaxLength": 1.0, "minlength": 5.0, "UNIQUEITEMS": true, "Required": []any{"a"}, "additionalproperties": false}
 		}},
 		{"ExtraEmpty", func(s *jsonschema.Schema) { s.Extra = map[string]any{} }},
-		{"Content", func(s *jsonschema.Schema) { s.ContentEncoding, s.ContentMediaType, s.ContentSchema = "base64", "application/json", intS.CloneSchemas() }},
+		{"Content", func(s *jsonschema.Schema) {
+			s.ContentEncoding, s.ContentMediaType, s.ContentSchema = "base64", "application/json", intS.CloneSchemas()
+		}},
 		// draft-07 shapes
 		{"D7ItemsArray", func(s *jsonschema.Schema) {
 			s.Schema = d7http
